@@ -13,6 +13,7 @@ C09 - rendering keeps the text.  Claimed for ONE clause only: docstring fields a
   R09.11 the doctest colorizer re-emits every named group of a token regex it takes apart
   R09.12 the piece taken after a delimiter is the whole remainder (split(d, k)[k], never split(d)[k])
   R09.13 a width cut from the front of every line of a block is computed over all of its lines
+  R09.17 the title docutils promotes to document title (a lone top-level section) is still rendered in the body
   R09.16 a field handler that keeps ONE text per entry reports a second field for the same entry before it overwrites the first
   R09.15 verbatim epytext tokens (literal and doctest blocks) are cut from their lines by one line-independent width
   R09.14 a consolidated-field handler turns every child of a list item into field content (whole copy, or indexes covered by a validated length)
@@ -560,6 +561,7 @@ def run(repo: Repo, chk: Check, thorough: bool = False) -> None:
     chk.require('R09.15', 2)
 
     check_r09_16(repo, chk)
+    check_r09_17(repo, chk)
     # ------------------------------------------------------------------ R09.7
     # a reST directive that declares a body (has_content = True) consumes it whatever its arguments are: every normal path through
     # run() passes through a statement that reads self.content
@@ -676,3 +678,26 @@ def check_r09_16(repo: Repo, chk: Check) -> None:
     if n < 4:
         raise AnalysisError(f'R09.16: {n} single-slot stores found in the field handlers (5 confirmed: return, returntype, yield, yieldtype, type)')
     chk.require('R09.16', 4)
+
+
+def check_r09_17(repo: Repo, chk: Check) -> None:
+    # docutils' standalone reader applies the DocTitle transform: a docstring whose body is ONE top-level section gets that section title promoted to
+    # the title of the document (and a lone sub-section title to its subtitle).  html4css1 writes document title and subtitle into parts of the page
+    # head (`body_pre_docinfo`, `html_title`), and node2html() returns `visitor.body` only - so the words of the title are nowhere in the output.
+    # Either the reader drops that transform, or the translator renders document-level titles into the body itself
+    tr = repo.classes.get('pydoctor.node2stan.HTMLTranslator')
+    rd = repo.classes.get('pydoctor.epydoc.markup.restructuredtext._EpydocReader')
+    if tr is None or rd is None:
+        raise AnalysisError('R09.17: HTMLTranslator / _EpydocReader not found')
+    gt = rd.methods.get('get_transforms')
+    drops = gt is not None and any(isinstance(x, ast.Attribute) and x.attr == 'DocTitle' for x in gt.walk())
+    renders = all(m_ in tr.methods and any(isinstance(x, ast.Attribute) and x.attr == 'document' for x in tr.methods[m_].walk()) for m_ in ('visit_title', 'visit_subtitle'))
+    n2h = repo.func('pydoctor.node2stan.node2html')
+    body_only = any(isinstance(x, ast.Attribute) and x.attr == 'body' for r in n2h.walk() if isinstance(r, ast.Return) and r.value is not None for x in ast.walk(r.value))
+    ok = drops or renders or not body_only
+    chk.ob('R09.17', 'pydoctor.node2stan.HTMLTranslator :: a title promoted to document title stays in the rendered body', ok,
+           'the DocTitle transform is removed' if drops else 'visit_title / visit_subtitle render document-level titles into the body' if renders else
+           ('node2html returns more than visitor.body' if not body_only else
+            'a reST / google / numpy docstring that consists of one section (`Usage` / `=====` / a paragraph) renders the paragraph only: docutils promotes the lone title to the '
+            'document title, html4css1 puts it into the page head parts, node2html returns visitor.body - the words of the title are lost, without a warning'), tr.loc)
+    chk.require('R09.17', 1)
